@@ -98,7 +98,7 @@ def match_known(v, known):
     for k in known:
         if k.get("status") != "known" or k.get("property") != v.pid: continue
         m = k.get("match", {})
-        if all(v.sig.get(a) == b for a, b in m.items() if a != "cond"):
+        if all((v.sig.get(a) in b) if isinstance(b, list) else (v.sig.get(a) == b) for a, b in m.items() if a != "cond"):
             cond = m.get("cond")
             if cond:
                 try:
